@@ -35,6 +35,20 @@ func Apply[T any](x T, f func(T) int) func() int {
 	}
 }
 
+func (b *Box[T]) Each(f func(T) int) int {
+	g := func() int { return f(b.V) + b.N }
+	return g()
+}
+
+func Counter[T any](x T, f func(T) int) func() int {
+	n := 0
+	return func() int {
+		n++
+		h := func() int { return f(x) * n }
+		return h()
+	}
+}
+
 func Pick[A, B any](a A, b B, first bool) int {
 	if first {
 		return int(unsafe.Sizeof(a))
@@ -61,6 +75,14 @@ func Use(k int) int {
 	return r + f() + lib.Pick(model.T{}, int8(0), k > 3)
 }
 
+func Shared(k int) int {
+	var b lib.Box[int]
+	b.Set(k)
+	c := lib.Counter(k, func(v int) int { return v + 1 })
+	c()
+	return b.Each(func(v int) int { return v * 3 }) + c() + lib.Size[int]()
+}
+
 func Other(k int) int {
 	type local struct{ x int8 }
 	var b lib.Box[local]
@@ -81,6 +103,13 @@ func Use(k int) int {
 	return r + f() + lib.Pick(int8(0), model.T{}, k > 3)
 }
 
+func Shared(k int) int {
+	var b lib.Box[int]
+	b.Set(k + 1)
+	c := lib.Counter(k, func(v int) int { return v + 2 })
+	return b.Each(func(v int) int { return v * 5 }) + c() + lib.Size[int]()
+}
+
 func Other(k int) int {
 	type local struct{ x int64 }
 	var b lib.Box[local]
@@ -96,6 +125,8 @@ func Run(k int) int {
 	trace(p2.Use(k))
 	trace(p1.Other(k))
 	trace(p2.Other(k))
+	trace(p1.Shared(k))
+	trace(p2.Shared(k))
 	trace(lib.Size[local]())
 	{
 		type local struct{ q [7]int }
@@ -155,7 +186,28 @@ func Get(t T) int    { return t.X - 3 }
 
 type getter interface{ Get() int }
 
+// one method reached through four receiver types (value, pointer, promoted
+// through an embedding struct by value and by pointer)
+type A struct{ x, y int }
+
+func (a A) f() int { return a.x*10 + a.y }
+
+type S struct {
+	pad [3]int
+	A
+}
+
+func exprs(k int) int {
+	a := A{k, 1}
+	s := S{[3]int{7, 8, 9}, A{k + 1, 2}}
+	f1, f2, f3, f4 := A.f, (*A).f, S.f, (*S).f
+	// the same method name on an imported and on a local type of the same name
+	g1, g2, g3 := a2.T.Get, T.Get, a1.T.Get
+	return f1(a) + f2(&a)*3 + f3(s)*5 + f4(&s)*7 + g1(a2.T{X: k})*11 + g2(T{X: k})*13 + g3(a1.T{X: k})*17
+}
+
 func Run(k int) int {
+	trace(exprs(k))
 	t1, u1, t2, t3 := a1.T{X: k}, a1.U{X: k}, a2.T{X: k}, T{X: k}
 	t1.Inc()
 	u1.Inc()
